@@ -99,6 +99,38 @@ Section Product.
 
   Definition all_final (g : gstate) : bool := forallb (final (fst g)) (snd g).
 
+  (* driving the product by an OBSERVED interleaving (used by the correspondence check): an
+     entry whose run has no step enabled is skipped; the steps actually taken are returned,
+     they form a schedule in the sense of [grun] (Proofs/Isolation.v gdrive_is_grun) *)
+  Fixpoint gdrive (sched : list nat) (g : gstate) : gstate * list nat :=
+    match sched with
+    | [] => (g, [])
+    | i :: sc =>
+        match gstep i g with
+        | None => gdrive sc g
+        | Some g' => let (gf, tk) := gdrive sc g' in (gf, i :: tk)
+        end
+    end.
+
+  (* run [i] until it has no step left, at most [fuel] steps *)
+  Fixpoint gfinish1 (fuel : nat) (i : nat) (g : gstate) : gstate * list nat :=
+    match fuel with
+    | O => (g, [])
+    | S f =>
+        match gstep i g with
+        | None => (g, [])
+        | Some g' => let (gf, tk) := gfinish1 f i g' in (gf, i :: tk)
+        end
+    end.
+
+  Fixpoint gfinish (fuel : nat) (runs : list nat) (g : gstate) : gstate * list nat :=
+    match runs with
+    | [] => (g, [])
+    | i :: runs' =>
+        let (g1, t1) := gfinish1 fuel i g in
+        let (g2, t2) := gfinish fuel runs' g1 in (g2, t1 ++ t2)
+    end.
+
   (* the sequential schedule: run 0 to completion, then run 1, ... (used for non-vacuity) *)
   Fixpoint seq_sched (i : nat) (lens : list nat) : list nat :=
     match lens with
@@ -224,12 +256,13 @@ Definition wstep_local (cell : option N) (r : wrun) : option (option N * wrun) :
   else None.
 
 (* ------------------------------------------------------------------------------------ *)
-(* Instance 3 — the replay machine used by the correspondence check (Corr/C09.v):
-   the compiled record is the table of solo observations (per call spec: the canonical
-   event trace and the result code, recorded by running the implementation alone);
-   a run emits its spec's events one per step. *)
-Record tspec : Type := { t_events : list N; t_result : N }.
-Record trun : Type := { tr_spec : nat; tr_pos : nat; tr_emitted : list N (* reversed *) }.
+(* Instance 3 — the replay machine used by the correspondence check (Corr/C09.v) for the
+   kinds of compiled objects that Model/IsolationEngine.v does not predict: the compiled
+   record is the table of solo observations (per call spec: the canonical event list and the
+   rendered result, recorded by running the implementation alone); a run emits its spec's
+   events one per step. *)
+Record tspec : Type := { t_events : list string; t_result : string }.
+Record trun : Type := { tr_spec : nat; tr_pos : nat; tr_emitted : list string (* reversed *) }.
 
 Definition tstep (tab : list tspec) (r : trun) : option trun :=
   match nth_error tab (tr_spec r) with
@@ -243,9 +276,9 @@ Definition tstep (tab : list tspec) (r : trun) : option trun :=
 
 Definition tinit (spec : nat) : trun := {| tr_spec := spec; tr_pos := O; tr_emitted := [] |}.
 
-(* observable of a run: Some (events, result) once it has emitted its whole trace *)
-Definition tobs (tab : list tspec) (r : trun) : option (list N * N) :=
+(* observable of a run: Some (result, events) once it has emitted its whole trace *)
+Definition tobs (tab : list tspec) (r : trun) : option (string * list string) :=
   match nth_error tab (tr_spec r) with
   | None => None
-  | Some sp => if Nat.eqb (tr_pos r) (List.length (t_events sp)) then Some (rev (tr_emitted r), t_result sp) else None
+  | Some sp => if Nat.eqb (tr_pos r) (List.length (t_events sp)) then Some (t_result sp, rev (tr_emitted r)) else None
   end.
